@@ -115,6 +115,29 @@ func init() {
 		st.assume(And(Ge(r, IntLit(-1)), Le(r, ng)))
 		return r, true
 	})
+	// (*http.Client).Do: either a transport error, or a fresh response whose StatusCode is recorded in the ghost http_status
+	reg("(*net/http.Client).Do", nil, func(st *State, fr *Frame, call ssa.CallInstruction, a []SVal) (SVal, bool) {
+		e := st.fresh("httperr", SInt)
+		st.assume(And(Ge(e, IntLit(0)), Lt(e, IntLit(900000000))))
+		r := st.allocRef()
+		rt := call.Common().Signature().Results().At(0).Type().Underlying().(*types.Pointer).Elem()
+		code := st.fresh("httpstatus", SInt)
+		su := rt.Underlying().(*types.Struct)
+		if idx, _ := findField(su, "StatusCode"); idx >= 0 {
+			st.store(st.fieldAddr(st.ptrAddr(r, rt), idx), code)
+		}
+		if idx, ft := findField(su, "Body"); idx >= 0 {
+			// a non-nil body on success (documented)
+			bv := st.freshVal("httpbody", ft)
+			if iv, ok := bv.(*IfaceV); ok {
+				st.assume(Neq(iv.Tag, IntLit(0)))
+			}
+			st.store(st.fieldAddr(st.ptrAddr(r, rt), idx), bv)
+		}
+		st.ghostSet("http_failed", nil, Neq(e, IntLit(0)))
+		st.ghostSet("http_status", nil, code)
+		return &TupleV{[]SVal{Ite(Eq(e, IntLit(0)), r, IntLit(0)), e}}, true
+	})
 	reg("unicode.IsLetter", nil, func(st *State, fr *Frame, call ssa.CallInstruction, a []SVal) (SVal, bool) {
 		return App(SBool, st.declareFun("unicode_isletter", []Sort{SInt}, SBool), st.scalar(a[0])), true
 	})
@@ -424,6 +447,23 @@ func (st *State) invokeIntrinsic(fr *Frame, in ssa.CallInstruction, c *ssa.CallC
 				st.unsupported("Commit on a hook committer outside hook analysis")
 			}
 			return r, true
+		}
+	}
+	// context.Context: Done() is a fixed channel of the context; once something was received from it, Err() is non-nil
+	if typeKey(c.Value.Type()) == "context.Context" {
+		if iv, ok := recv.(*IfaceV); ok {
+			id := Add(Mul(iv.Tag, IntLit(1000003)), iv.Val)
+			ch := App(SInt, st.declareFun("ctx_done_chan", []Sort{SInt}, SInt), id)
+			switch c.Method.Name() {
+			case "Done":
+				st.assume(Gt(ch, IntLit(0)))
+				return ch, true
+			case "Err":
+				e := st.fresh("ctxerr", SInt)
+				st.assume(And(Ge(e, IntLit(0)), Lt(e, IntLit(900000000))))
+				st.assume(Implies(st.ghostGet(st.heap, "ctx_done_seen", []*Term{ch}, SBool), Neq(e, IntLit(0))))
+				return e, true
+			}
 		}
 	}
 	if isErrorType(c.Value.Type()) && c.Method.Name() == "Error" {
